@@ -40,7 +40,7 @@ VALID_OPS = [
     "overlap", "overlap_screen", "overlap_T", "overlap_asym", "kinetic", "nuclear", "point_charge", "moment", "momentum", "angmom",
     "eri", "eri_chem", "eval", "eval_T", "deriv", "deriv_direct", "density", "deriv_density", "gradient", "laplacian", "hessian",
     "posdef_ked", "general_ked", "esp", "stress", "force", "ehess", "make_contractions", "make_contractions_str", "make_contractions_tuple",
-    "parse_nwchem", "parse_gbs", "gen_transform", "rdm", "overlap_dup", "eri_dup", "eval_dup",
+    "parse_nwchem", "parse_gbs", "gen_transform", "rdm", "overlap_dup", "eri_dup", "eval_dup", "kinetic_dup", "momentum_dup", "moment_dup", "point_charge_dup", "density_dup",
 ]
 INVALID_OPS = [
     "bad_points_shape", "bad_dm_asym", "bad_esp_threshold", "bad_notation", "bad_backend", "bad_direct_order3", "bad_ct_len",
@@ -191,9 +191,14 @@ def op_call(name, P, o):
         "overlap_asym": lambda: overlap_integral_asymmetric(b, P["basis2"]),
         # the same shell OBJECT listed twice (and a third time through another reference): values must be those of a
         # basis of distinct, equal-valued shells
-        "overlap_dup": lambda: _dup_check(overlap_integral, (b[0], b[-1], b[0])),
-        "eri_dup": lambda: _dup_check(lambda x: electron_repulsion_integral(list(x), notation="chemist"), (b[0], b[0])),
-        "eval_dup": lambda: _dup_check(lambda x: evaluate_deriv_basis(x, P["pts"], P["orders"]), (b[-1], b[0], b[-1])),
+        "overlap_dup": lambda: _dup_check(overlap_integral, _dups(b, r, 3)),
+        "eri_dup": lambda: _dup_check(lambda x: electron_repulsion_integral(list(x), notation="chemist"), _dups(b, r, 2)),
+        "eval_dup": lambda: _dup_check(lambda x: evaluate_deriv_basis(x, P["pts"], P["orders"]), _dups(b, r, 3)),
+        "kinetic_dup": lambda: _dup_check(kinetic_energy_integral, _dups(b, r, 3)),
+        "momentum_dup": lambda: _dup_check(momentum_integral, _dups(b, r, 3)),
+        "moment_dup": lambda: _dup_check(lambda x: moment_integral(x, P["origin"], P["morders"]), _dups(b, r, 3)),
+        "point_charge_dup": lambda: _dup_check(lambda x: point_charge_integral(x, P["pts"], P["chg"]), _dups(b, r, 3)),
+        "density_dup": lambda: _dup_check(lambda x: D.evaluate_density(_dm_for(x, r), x, P["pts"]), _dups(b, r, 3)),
         "kinetic": lambda: kinetic_energy_integral(b),
         "nuclear": lambda: nuclear_electron_attraction_integral(b, P["nuc"], P["Z"]),
         "point_charge": lambda: point_charge_integral(b, P["pts"], P["chg"]),
@@ -246,6 +251,27 @@ def op_call(name, P, o):
 
 class DupMismatch(Exception):
     pass
+
+
+def _dups(b, r, n):
+    """a basis that lists the same shell OBJECT more than once: as found in the pool (possibly mixed coordinate types) or
+    rebuilt with one common coordinate type so that the all-spherical / all-Cartesian assembly paths are taken too"""
+    from gbasis.contractions import GeneralizedContractionShell as _G
+
+    mode = ("asis", "spherical", "cartesian")[int(r[3] * 3) % 3]
+    x, y = b[0], b[-1]
+    if mode != "asis":
+        with np.errstate(under="ignore"):
+            x, y = (_G(int(v.angmom), np.array(v.coord), np.array(v.coeffs), np.array(v.exps), mode) for v in (x, y))
+    pat = [(x, x), (x, y, x), (y, x, x), (x, x, y)][int(r[2] * 4) % 4 if n == 3 else 0]
+    return tuple(pat)
+
+
+def _dm_for(x, r):
+    n = sum(s_.num_sph * s_.num_seg_cont if s_.coord_type == "spherical" else s_.num_cart * s_.num_seg_cont for s_ in x)
+    g = np.random.default_rng(int(r[1] * 1e6))
+    a = g.normal(size=(n, 2))
+    return a @ a.T
 
 
 def _dup_check(fn, dup):
